@@ -122,8 +122,10 @@ def fold_python(idx: Index, spec, structs, sname):
         "_add_special": ("host", lambda *a, **k: None),
         "_lsp_model": spec,
     }
-    self_rec = Record("TypesCodeGenerator", stubs, {"TypesCodeGenerator": {"_get_dependent_types": methods["_get_dependent_types"]}})
-    it.classes["TypesCodeGenerator"] = {"_get_dependent_types": methods["_get_dependent_types"]}
+    # every other method of the class is available as written (helpers split off by refactorings included)
+    own = {k: v for k, v in methods.items() if k not in stubs}
+    self_rec = Record("TypesCodeGenerator", stubs, {"TypesCodeGenerator": own})
+    it.classes["TypesCodeGenerator"] = own
     for helper in ("_get_indented_documentation", "_get_since"):
         it.globals[helper] = ("host", lambda *a, **k: [] if helper == "_get_since" else None)
     it.globals["_get_since"] = ("host", lambda *a, **k: [])
@@ -207,7 +209,7 @@ def fold_python_literals(idx: Index):
         it.globals["itertools"] = ModuleRef("itertools", attrs={"count": ("host", lambda *a: _it.count(*a))})
         added = []
         self_rec = Record("TypesCodeGenerator", {"_add_literal_type": ("host", lambda t: added.append(t))},
-                          {"TypesCodeGenerator": {"_process_literal_types": methods["_process_literal_types"]}})
+                          {"TypesCodeGenerator": {k: v for k, v in methods.items() if k != "_add_literal_type"}})
         try:
             it.call(methods["_process_literal_types"], [self_rec, "SomeClass/someProp", ty])
         except Raised as e:
